@@ -83,6 +83,7 @@ type FuncContract struct {
 	Consumes  []string // tokens consumed from caller by `go f()`
 	Effects   []GhostStep // ghost updates applied at function exit
 	CallAsserts []CallAssert
+	AtReturn  []*Clause // asserted at every return statement of the function, locals visible
 	Locals    []ParamDef // local <name> <Go type>: if no local has that name, the unique local of that type is meant (renaming-robust)
 	Opts      map[string]string
 }
@@ -147,7 +148,7 @@ var topKeywords = map[string]bool{"func": true, "pred": true, "def": true, "fun"
 	"owned": true, "trusted": true, "immutable": true, "alloc": true, "lockorder": true, "chan": true, "env": true, "confined": true, "lemma": true, "pkgimmutable": true}
 var fnKeywords = map[string]bool{"requires": true, "ensures": true, "loop": true, "invariant": true, "decreases": true,
 	"step": true, "let": true, "mode": true, "modifies": true, "ghostvar": true, "mathint": true, "thread": true,
-	"pure": true, "unroll": true, "noinline": true, "consumes": true, "opt": true, "effect": true, "atcall": true, "init": true, "exit": true, "writes": true, "local": true}
+	"pure": true, "unroll": true, "noinline": true, "consumes": true, "opt": true, "effect": true, "atcall": true, "init": true, "exit": true, "writes": true, "local": true, "atreturn": true}
 
 type rawDirective struct {
 	kw   string
@@ -672,6 +673,12 @@ func (cs *Contracts) loadFile(path string) error {
 					return fail("%v", err)
 				}
 				curLoop.Steps = append(curLoop.Steps, GhostStep{Var: strings.TrimSpace(d.text[:i]), Expr: e, Src: d.text})
+			case "atreturn":
+				c, err := parseClause(d, d.text)
+				if err != nil {
+					return err
+				}
+				cur.AtReturn = append(cur.AtReturn, c)
 			case "local":
 				f := strings.SplitN(strings.TrimSpace(d.text), " ", 2)
 				if len(f) != 2 {
